@@ -106,6 +106,7 @@ Int = Shape("int")
 Real = Shape("real")
 Bool = Shape("bool")
 Str = Shape("str")
+Bytes = Shape("bytes")
 
 
 def Record(qual, **k):
@@ -150,6 +151,10 @@ def IntRange(lo, hi):
 
 def Enum(qual):
     return Shape("enum", qual)
+
+
+def ClassOf(qual):
+    return Shape("class", qual)
 
 
 class OpaqueToken:
@@ -228,8 +233,12 @@ def generate(sh, rng, field_types=None):
         return rng.random() < 0.5
     if k == "str":
         return rng.choice(["", "a", "M0,0", "black", "x y"])
+    if k == "bytes":
+        return bytes(rng.randint(0, 40))
     if k == "const":
         return sh.a[0]
+    if k == "class":
+        return load_class(sh.a[0])
     if k == "opaque":
         return make_opaque(sh.a[0], rng.randint(0, 3))
     if k == "opt":
@@ -326,6 +335,10 @@ def from_json(j):
             return types.SimpleNamespace(**{k: from_json(v) for k, v in j["__obj__"].items()})
         if "__dict__" in j:
             return {from_json(k): from_json(v) for k, v in j["__dict__"]}
+        if "__bytes__" in j:
+            return bytes(max(0, min(int(j["__bytes__"]), 100000)))
+        if "__class__" in j:
+            return load_class(j["__class__"])
         if "__enum__" in j:
             return getattr(load_class(j["__enum__"]), j["name"])
         raise ValueError(f"cannot rebuild {j}")
